@@ -97,7 +97,7 @@ def tps_cases(draw):
     nf = draw(st.integers(2, 65))
     ns = draw(st.integers(1, 8))
     lead = tuple(draw(st.sampled_from([(), (), (2,), (1,), (2, 3)])))
-    kind = draw(st.sampled_from(["noise", "noise", "sine", "dyadic"]))
+    kind = draw(st.sampled_from(["noise", "noise", "sine", "dyadic", "int64", "int16", "float32"]))
     return {"nf": nf, "ns": ns, "lead": lead, "kind": kind, "seed": draw(st.integers(0, 2**32 - 1)), "q": draw(st.integers(0, 64)),
             "k": draw(gen.dyadic(-4, 4, 4)), "rate": draw(gen.logfloat(1.0, 5000.0)), "amp": draw(gen.logfloat(1e-3, 1e3))}
 
@@ -114,6 +114,10 @@ def tps_body(ctx, case):
         data = case["amp"] * np.cos(2 * np.pi * q * t / nf + rng.uniform(0, 6.28, size=lead + (1, ns))) * np.ones(shape)
     elif case["kind"] == "dyadic":
         data = rng.integers(-64, 65, size=shape) / 16.0
+    elif case["kind"] in ("int64", "int16"):
+        data = rng.integers(-40, 41, size=shape).astype(case["kind"])          # raw detector counts are integers
+    elif case["kind"] == "float32":
+        data = rng.normal(size=shape).astype(np.float32)
     else:
         data = rng.normal(size=shape) * case["amp"]
     ctx.case(case, nontrivial=nf % 2 == 1 or len(lead) > 0, classes=[case["kind"], "odd_frames" if nf % 2 else "even_frames", "lead%d" % len(lead)])
@@ -129,14 +133,17 @@ def tps_body(ctx, case):
     want = P[..., :nb, :].mean(-1)
     want_err = P[..., :nb, :].std(-1) / math.sqrt(ns)
     sc = float(np.max(P)) or 1.0
+    if case["kind"] == "float32":
+        ctx.close(mean_tps, want, 1e-4, "temporal power spectrum (float32 data) == definition", scale=sc, name="tps vs definition (float32)")
+        return
     ctx.close(mean_tps, want, 1e-10, "temporal power spectrum == mean over sub-apertures of |DFT along frames|^2", scale=sc, name="tps vs definition")
     ctx.close(err, want_err, 1e-9, "temporal power spectrum error == standard error over sub-apertures", scale=sc, name="tps error vs definition")
     # quadratic in amplitude
     k = case["k"]
-    mk, ek = tp.calc_slope_temporalps(k * data)
+    mk, ek = tp.calc_slope_temporalps(k * data.astype(np.float64))
     ctx.close(mk, k * k * mean_tps, 1e-10, "temporal power spectrum quadratic in amplitude", scale=sc * k * k or 1.0)
     # Parseval: sum over all bins of |F|^2 = n * sum |x|^2; returned bins + independently computed dropped bins
-    total = nf * np.sum(data ** 2, axis=-2).mean(-1)
+    total = nf * np.sum(data.astype(np.float64) ** 2, axis=-2).mean(-1)
     dropped = P[..., nb:, :].sum(-2).mean(-1)
     ctx.close(mean_tps.sum(-1) + dropped, total, 1e-10, "Parseval: returned bins + dropped bins == n sum x^2", scale=float(np.max(total)) or 1.0)
     if case["kind"] == "sine" and nb >= 1:
